@@ -44,11 +44,14 @@ def coalOne (seen : List Nat) : List LayerArts → List Nat
       ++ (la.pkgRepos ++ la.repos).map (fun r => 2000000 + r * 1000)
       ++ coalOne (fresh ++ seen) rest
 
+def whiteoutEco : Eco := { ps := [], ds := [], rs := [], fs := [{ name := "whiteout", version := "1", kind := .file }] }
+
 def sem : Sem where
   scan := scan
   real := isWhiteout
   coal := fun _ arts => coalOne [] arts
   merge := fun bs => SortDedup.canon bs.flatten
+  realEco := fun e => e == whiteoutEco
 
 structure State where
   wd : World := {}
@@ -61,8 +64,6 @@ def parseSpec (p : String) : Option (Nat × Scanner) :=
   match p.splitOn "/" with
   | [e, k, n, v] => do pure ((← e.toNat?), { name := n, version := v, kind := (← parseKind k) })
   | _ => none
-
-def whiteoutEco : Eco := { ps := [], ds := [], rs := [], fs := [{ name := "whiteout", version := "1", kind := .file }] }
 
 /-- `libindex.New`: the stub ecosystems in index order, then the whiteout ecosystem. -/
 def mkCfg (specs : List (Nat × Scanner)) : Cfg :=
